@@ -20,7 +20,7 @@ RULE = ("schemas with mutable defaults on typed lists/dicts (scalars, dict items
         "load of the unchanged files; hand-made argparse namespaces (known options, options a dynamic or fixed section "
         "does not declare) go through cmdline_args_override; non-trivial = >= 3 "
         "operations applied with >= 1 in-place mutation or dynamic field; distinct = distinct (schema, history)")
-REQUIRED = ("setdefault_results_changed_in_place", "schemas_with_a_tuple_default_on_a_typed_list", "asdict_with_computed_fields", "schemas_with_encoded_values_in_default_items", "hand_written_documents_with_unknown_names", "inner_containers_changed_in_place", "asdict_results_changed_in_place", "failed_include_loads", "foreign_method_secrets_loaded", "schemas_with_environment_prefix", "resets_then_inplace_mutations", "cmdline_namespaces_applied", "same_document_loads", "cross_assignments", "serialisations_applied", "twin_before_checks", "twin_after_checks", "fingerprint_checks", "shared_item_checks", "ops_applied",
+REQUIRED = ("typed_containers_assigned_between_equal_configurations", "setdefault_results_changed_in_place", "schemas_with_a_tuple_default_on_a_typed_list", "asdict_with_computed_fields", "schemas_with_encoded_values_in_default_items", "hand_written_documents_with_unknown_names", "inner_containers_changed_in_place", "asdict_results_changed_in_place", "failed_include_loads", "foreign_method_secrets_loaded", "schemas_with_environment_prefix", "resets_then_inplace_mutations", "cmdline_namespaces_applied", "same_document_loads", "cross_assignments", "serialisations_applied", "twin_before_checks", "twin_after_checks", "fingerprint_checks", "shared_item_checks", "ops_applied",
             "inplace_mutations", "dynamic_fields_added")
 ASSUMPTIONS = ["deep mutation inside an *untyped* default (ListField(default=[[1]]), Field(default=[...])) is out of "
                "scope: the property quantifies over mutable defaults on typed fields"]
@@ -313,6 +313,8 @@ def run(case, ctx, res):
         if any(k.upper().startswith("VFC13") for k in os.environ):
             return
         res.count("schemas_with_environment_prefix")
+    if not _equal_items_stage(cc, res, len(case["ops"])):
+        return
     if case["schema"].get("tuple_default"):
         res.count("schemas_with_a_tuple_default_on_a_typed_list")
     if case["schema"].get("encoded_item_defaults"):
@@ -457,6 +459,38 @@ def run(case, ctx, res):
                 return
     if applied >= 3 and (inplace or dyn):
         res.nontrivial(case["schema"], case["ops"])
+
+
+def _equal_items_stage(cc, res, seed):
+    """Two configuration-type items that are EQUAL at the moment (and two equal configurations of one type): the typed list /
+    dict of one is assigned to the other, then changed in place through one of them - the other keeps its own."""
+    item = cc.Schema()
+    item.name = cc.StringField(default="x")
+    item.ports = cc.ListField(cc.IntField(), default=lambda: [80, 443])
+    item.tags = cc.DictField(cc.StringField(), cc.IntField(), default=lambda: {"a": 1})
+    t = cc.make_type(item, "EqItem", module="vf_types")
+    schema = cc.Schema()
+    schema.servers = cc.ListField(t)
+    schema.main = t
+    cfg, other = schema(), schema()
+    cfg.servers = [{}, {}]
+    pairs = [(cfg.servers[0], cfg.servers[1], "servers[0]", "servers[1]"), (cfg.main, other.main, "a.main", "b.main")]
+    src, dst, sname, dname = pairs[seed % 2]
+    res.count("typed_containers_assigned_between_equal_configurations")
+    try:
+        dst.ports = src.ports
+        dst.tags = src.tags
+        dst.ports.append(8080)
+        dst.tags["zz"] = 2
+    except Exception as exc:
+        res.viol("M-twin", "equal-configurations:raises", "assigning the typed list / dict of %s to the equal configuration %s and changing "
+                 "it in place raised %r" % (sname, dname, exc))
+        return False
+    if list(src.ports) != [80, 443] or dict(src.tags) != {"a": 1}:
+        res.viol("M-twin", "equal-configurations:shared-container", "%s.ports = %s.ports (both configurations equal at that moment), then "
+                 "%s.ports.append(8080): %s.ports is %r, its tags %r" % (dname, sname, dname, sname, list(src.ports), dict(src.tags)))
+        return False
+    return True
 
 
 def _scramble_top(d, node):
